@@ -394,8 +394,8 @@ def r5(ctx) -> None:
 
 
 def check(ctx) -> None:
-    r1_r2(ctx)
-    r2_tee(ctx)
-    r3(ctx)
-    r4(ctx)
-    r5(ctx)
+    for g in check.groups:
+        g(ctx)
+
+
+check.groups = [r1_r2, r2_tee, r3, r4, r5]
